@@ -207,6 +207,10 @@ pub struct World {
     /// master key ("another tenant": same names, identifiers allocated in another order) through
     /// the same instance: nothing of it may leak into the call under test
     pub tenant_probe: bool,
+    /// long-lived encapsulations re-encapsulated after every operation (both modes): a memo of
+    /// an earlier re-encapsulation must not decide a later one
+    pub recaps_prime: bool,
+    pub recaps_longlived: Vec<EncEntry>,
 }
 
 pub struct PkeEntry {
@@ -274,6 +278,8 @@ impl World {
             pke: vec![],
             pke_probes: false,
             tenant_probe: false,
+            recaps_prime: false,
+            recaps_longlived: vec![],
         };
         w.observe_msk("setup", &[(vec![], 0)]);
         let m = w.model.mpk();
@@ -589,6 +595,8 @@ impl World {
         let _ = guarded!(self.cc.prune_master_secret_key(&mut other, &ap));
         if let Ok(Ok(mpk)) = guarded!(other.mpk()) {
             let _ = guarded!(self.cc.encaps(&mpk, &ap));
+            let _ = guarded!(PkeAc::<{ Aes256Gcm::KEY_LENGTH }, Aes256Gcm>::encrypt(&self.cc, &mpk, &ap, PKE_PLAINTEXT));
+            let _ = guarded!(cosmian_cover_crypt::EncryptedHeader::generate(&self.cc, &mpk, &ap, Some(b"m"), None));
         }
         self.bump("tenant_interferences");
     }
@@ -929,6 +937,23 @@ impl World {
             }
         }
 
+        // ---- long-lived encapsulations for re-encapsulation (both modes) -----------------------
+        if self.recaps_prime {
+            if self.recaps_longlived.is_empty() && self.mpks.len() >= 2 {
+                self.recaps_longlived = self.menu_under(1, false);
+            }
+            if mode == Mode::Replay {
+                let j = self.mpks.len() - 1;
+                for i in 0..self.recaps_longlived.len() {
+                    let _ = guarded!(self.cc.recaps(&self.msk, &self.mpks[j].mpk, &self.recaps_longlived[i].enc));
+                }
+            }
+        }
+        // ---- fresh PKE encryptions under the newest public key (checked op only) ---------------
+        if self.pke_probes && mode == Mode::Check && self.mpks.len() >= 2 {
+            self.pke_fresh_probe();
+        }
+
         // ---- the user key touched by the call ---------------------------------------------
         if let Some(k) = touched_usk {
             if matches!(op, Op::Keygen(_)) {
@@ -1032,6 +1057,42 @@ impl World {
         }
         for k in 0..self.usks.len() {
             self.pke_probe(k, false);
+        }
+    }
+
+    /// Encrypts the menu under the newest public key - right after the same policies were used
+    /// for another master key (other id layout) through the same instance - and decrypts with
+    /// every key.
+    fn pke_fresh_probe(&mut self) {
+        let j = self.mpks.len() - 1;
+        for p in self.enc_menu.clone() {
+            let Some(ap) = self.parse_policy(&p) else { continue };
+            if self.tenant_probe {
+                self.tenant_interference(&p);
+            }
+            let pred = self.mpks[j].model.encaps(&parse_dnf(&p));
+            let r = guarded!(PkeAc::<{ Aes256Gcm::KEY_LENGTH }, Aes256Gcm>::encrypt(&self.cc, &self.mpks[j].mpk, &ap, PKE_PLAINTEXT));
+            self.bump("pke_encrypts");
+            match (r, pred) {
+                (Err(_), _) => self.fail("C12.h", format!("PKE encrypt {p:?} panicked")),
+                (Ok(Ok(_)), Err(())) => self.fail("C12.h", format!("PKE encrypt {p:?} under the newest public key succeeded although the policy cannot be encrypted to")),
+                (Ok(Err(e)), Ok(_)) => self.fail("C12.h", format!("PKE encrypt {p:?} under the newest public key failed: {e}")),
+                (Ok(Err(_)), Err(())) => {}
+                (Ok(Ok(ct)), Ok(m)) => {
+                    for k in 0..self.usks.len() {
+                        let want = self.usks[k].model.opens(&m);
+                        let got = guarded!(PkeAc::<{ Aes256Gcm::KEY_LENGTH }, Aes256Gcm>::decrypt(&self.cc, &self.usks[k].usk, &ct));
+                        let ok = match &got {
+                            Ok(Ok(Some(x))) => want && **x == *PKE_PLAINTEXT,
+                            Ok(Ok(None)) => !want,
+                            _ => false,
+                        };
+                        if !ok {
+                            self.fail("C12.h", format!("fresh PKE ciphertext for {p:?}: key {k} ({}) {}", self.usks[k].policy, if want { "cannot decrypt it" } else { "decrypts it although it is not authorised" }));
+                        }
+                    }
+                }
+            }
         }
     }
 
